@@ -17,7 +17,7 @@ DAYS = ["mon", "tue", "wed", "thu", "fri", "sat", "sun"]
 # TaskJuggler effort units with the default 8 h day / 5 day week.
 EFFORT_UNIT_MIN = {"min": 1, "h": 60, "d": 480, "w": 2400}
 # calendar duration units (gapduration, booking length)
-DUR_UNIT_MIN = {"min": 1, "h": 60, "d": 1440, "w": 10080}
+DUR_UNIT_MIN = {"min": 1, "h": 60, "d": 1440, "w": 10080, "m": 43200, "y": 525600}  # m/y: fixed 30 d / 365 d (only C14 generates them; it does not interpret them)
 
 
 @dataclass
